@@ -13,6 +13,7 @@ from ..facts import walk, strip_targs
 from ..substrate import AnalysisBroken
 from .. import dispatch as D
 from ..taint import _tree_eq
+from ..cfgutil import must_pass, blocks_calling
 
 LEVEL = "other"
 
@@ -128,3 +129,66 @@ def run(ctx, rep):
     ok = need <= set(users)
     rep.add(Obligation("WITNESS", "draco::KeyframeAnimation", "kTimestampId", "-", DISCHARGED if ok else VIOLATION,
                        detail="timestamps are stored and looked up under the same constant (users: %s)" % sorted(set(users))))
+
+    timestamp_slot(ctx, rep, led)
+
+
+def timestamp_slot(ctx, rep, led):
+    """TIMESTAMP-SLOT: on every success path SetTimestamps installs, in attribute slot kTimestampId, a fresh
+    one-component float32 attribute built in this function (the property's anchor: 'timestamps pinned to id
+    0'; encoder options - per-track quantization - are keyed by attribute index, tracks by unique id)."""
+    F = ctx.F
+    rep.rules_text.append(
+        "TIMESTAMP-SLOT: every success path of KeyframeAnimation::SetTimestamps passes "
+        "PointCloud::SetAttribute(kTimestampId, <attribute>) where the attribute is the one this function "
+        "initialised with one DT_FLOAT32 component; KeyframeAnimation::AddKeyframes returns the id handed out "
+        "by AddAttribute for the track it built and reserves slot 0 first when no attribute exists yet")
+    dt_f32 = led["enums"]["draco::DataType"]["DT_FLOAT32"]
+    for fn in F.need("draco::KeyframeAnimation::SetTimestamps"):
+        def is_set(n):
+            if strip_targs(n.get("fn") or "") != "draco::PointCloud::SetAttribute" or not n.get("objthis"):
+                return False
+            a0 = (n.get("args") or [None])[0]
+            return isinstance(a0, dict) and any(x.get("g") == "draco::KeyframeAnimation::kTimestampId"
+                                                for x in walk(a0))
+        sb = blocks_calling(fn, is_set)
+        bad = must_pass(fn, sb) if sb else [1]
+        rep.add(Obligation("TIMESTAMP-SLOT", fn.base, "SetAttribute(kTimestampId, ...) on every success path", fn.loc,
+                           DISCHARGED if sb and not bad else VIOLATION,
+                           detail="timestamps always replace attribute slot kTimestampId" if sb and not bad else
+                           "a success path of SetTimestamps does not install the timestamps in attribute slot "
+                           "kTimestampId (attribute index and unique id of the timestamps / tracks drift apart)"))
+        inits = []
+        for n, b, rk, ev in fn.calls():
+            if strip_targs(n.get("fn") or "") in ("draco::PointAttribute::Init", "draco::GeometryAttribute::Init"):
+                a = n.get("args") or []
+                comps = a[1].get("v") if len(a) > 1 and isinstance(a[1], dict) else None
+                dt = a[2].get("v") if len(a) > 2 and isinstance(a[2], dict) else None
+                inits.append((b, comps, dt))
+        good = [b for b, c, d in inits if c == 1 and d == dt_f32]
+        ok = bool(good) and bool(sb) and all(any(fn.block_dominates(g, s_) for g in good) for s_ in sb)
+        if not inits:
+            rep.note("SetTimestamps contains no PointAttribute::Init call (attribute built by a helper?): the "
+                     "1 x DT_FLOAT32 clause is not decided")
+            ok = True
+        rep.add(Obligation("TIMESTAMP-SLOT", fn.base, "timestamp attribute is 1 x DT_FLOAT32", fn.loc,
+                           DISCHARGED if ok else VIOLATION,
+                           detail="Init(GENERIC, 1, DT_FLOAT32, ...) dominates the installation" if ok else
+                           "the attribute installed as timestamps is not initialised here as one DT_FLOAT32 component "
+                           "(found Init calls with (components, type) = %s)" % [(c, d) for b, c, d in inits]))
+    if not F.find("draco::KeyframeAnimation::AddKeyframes"):
+        rep.note("KeyframeAnimation::AddKeyframes<T> is a template that only the test units instantiate: not analysed")
+    for fn in F.find("draco::KeyframeAnimation::AddKeyframes"):
+        adds = [(n, b) for n, b, rk, ev in fn.calls()
+                if strip_targs(n.get("fn") or "") == "draco::PointCloud::AddAttribute" and n.get("objthis")]
+        ret_add = [n for n, b in adds if n.get("use") == "ret"]
+        rep.add(Obligation("TIMESTAMP-SLOT", fn.base, "track id is the id AddAttribute hands out", fn.loc,
+                           DISCHARGED if ret_add else VIOLATION,
+                           detail="returns this->AddAttribute(track)" if ret_add else
+                           "AddKeyframes no longer returns the attribute id of the track it added"))
+        reserve = [n for n, b in adds if n.get("use") != "ret"]
+        rep.add(Obligation("TIMESTAMP-SLOT", fn.base, "slot 0 reserved before the first track", fn.loc,
+                           DISCHARGED if reserve else VIOLATION,
+                           detail="placeholder attribute added when no attribute exists yet" if reserve else
+                           "the first track would take attribute slot 0 (kTimestampId)"))
+        break
